@@ -21,11 +21,13 @@ mutual
   def RefTreeR : RDs D → Prop
     | .static _ _ => True
     | .filtered ds fs => RefTreeR ds ∧ ∀ f ∈ fs, RefFilter f
+    | .xfiltered _ _ => False
     | .join _ _ => False
     | .fromDs d => RefTreeD d
   def RefTreeD : DDs D → Prop
     | .static _ _ => True
     | .filtered d _ => RefTreeD d
+    | .xfiltered _ _ => False
     | .reduction _ _ _ _ _ => False
     | .fromReport r _ => RefTreeR r
 end
@@ -34,11 +36,13 @@ mutual
   theorem refTreeR_noRed : ∀ (q : RDs D), RefTreeR q → NoRedR q
     | .static _ _, _ => trivial
     | .filtered ds _, h => refTreeR_noRed ds h.1
+    | .xfiltered _ _, h => by simp [RefTreeR] at h
     | .join _ _, h => by simp [RefTreeR] at h
     | .fromDs d, h => refTreeD_noRed d h
   theorem refTreeD_noRed : ∀ (q : DDs D), RefTreeD q → NoRedD q
     | .static _ _, _ => trivial
     | .filtered d _, h => refTreeD_noRed d h
+    | .xfiltered _ _, h => by simp [RefTreeD] at h
     | .reduction _ _ _ _ _, h => by simp [RefTreeD] at h
     | .fromReport r _, h => refTreeR_noRed r h
 end
@@ -77,6 +81,7 @@ mutual
         simp only [ResRef] at ih
         simp only [ih, Option.bind_some]
         exact applyRFs_ref O fix fs ht.2 (soundR O fix from_ to ds _ hw hr)
+    | .xfiltered _ _, _, ht => by simp [RefTreeR] at ht
     | .join _ _, _, ht => by simp [RefTreeR] at ht
     | .fromDs d, hw, ht => by
       have ih := execD_ref fix from_ to d hw ht
@@ -132,6 +137,7 @@ mutual
           simp only at h1 h2; subst h1; subst h2
           simp only [ResRef] at href
           simp [ResRefD, href]
+    | .xfiltered _ _, _, ht => by simp [RefTreeD] at ht
     | .reduction _ _ _ _ _, _, ht => by simp [RefTreeD] at ht
     | .fromReport r urn, hw, ht => by
       have ih := execR_ref fix from_ to r hw ht
